@@ -29,7 +29,7 @@ for d in sorted(glob.glob("/verif/seeded/*/")):
     notes = open(d + "notes.md").read() if os.path.exists(d + "notes.md") else ""
     paras = [p.strip() for p in re.split(r"\n\s*\n", notes) if p.strip()]
     need = [p for p in paras if re.search(r"(?i)\b(needed to|needs|what it takes|what is needed|to manifest|to show up|requires)\b", p)]
-    title = paras[0].lstrip("# ").strip() if paras else ""
+    title = notes.strip().split("\n")[0].lstrip("# ").strip() if notes.strip() else ""
     meta["what"] = title[:300]
     if need:
         meta["needs"] = re.sub(r"\s+", " ", need[0])[:900]
